@@ -14,8 +14,10 @@ use crate::sched::{explore, ExploreStats};
 use crate::sweep::{case_hash, Acc, Violation};
 use crate::universe::*;
 
-#[derive(Clone, Debug)]
+#[derive(Clone, Debug, serde::Serialize, serde::Deserialize)]
 pub struct AsyncPlan {
+    /// what the provider's `sort_candidates` does besides sorting (re-entrant cache use)
+    pub sort_cb: SortCallback,
     /// per-package hint override (bit n = package n answers All), takes precedence over `hint`
     pub hint_mask: Option<u64>,
     pub mask: u8,
@@ -38,9 +40,20 @@ fn async_cfg(plan: &AsyncPlan, prefix: &[u32]) -> RunCfg {
         },
         hint_override: plan.hint.clone(),
         hint_mask: plan.hint_mask,
+        sort_cb: plan.sort_cb,
         log: true,
         ..RunCfg::default()
     }
+}
+
+thread_local! {
+    /// which per-case check is running (function + arguments): recorded in every violation so that
+    /// `replay` can re-run exactly that check on the recorded case
+    static CALL: std::cell::RefCell<serde_json::Value> = const { std::cell::RefCell::new(serde_json::Value::Null) };
+}
+
+fn set_call(v: serde_json::Value) {
+    CALL.with(|c| *c.borrow_mut() = v);
 }
 
 fn viol(prop: &str, sig: &str, what: String, case: &Case, detail: serde_json::Value, order: (usize, u64, u32)) -> Violation {
@@ -48,9 +61,37 @@ fn viol(prop: &str, sig: &str, what: String, case: &Case, detail: serde_json::Va
         property: prop.to_string(),
         signature: sig.to_string(),
         what,
-        replay: json!({"kind": "e2", "case": case, "detail": detail, "universe": case.u.describe(&case.p)}),
+        replay: json!({"kind": "e2", "case": case, "call": CALL.with(|c| c.borrow().clone()), "detail": detail, "universe": case.u.describe(&case.p)}),
         order,
     }
+}
+
+/// Re-runs the per-case check recorded in a violation (all schedules / cancellation points of that one
+/// case) and returns the signatures it reports now.
+pub fn replay(v: &serde_json::Value) -> Vec<String> {
+    let case: Case = serde_json::from_value(v["case"].clone()).expect("case");
+    let call = &v["call"];
+    let plan = || -> AsyncPlan { serde_json::from_value(call["plan"].clone()).expect("plan") };
+    let hint = || -> Option<Hint> { serde_json::from_value(call["hint"].clone()).unwrap_or(None) };
+    let mut acc = Acc::default();
+    let o = (0, 0, 0);
+    match call["fn"].as_str() {
+        Some("c10_c11") => check_c10_c11(call["prop"].as_str().unwrap_or("C10"), &case, &plan(), o, &mut acc),
+        Some("c12_sync") => check_c12_sync(&case, hint(), o, &mut acc),
+        Some("c12_async") => check_c12_async(&case, &plan(), o, &mut acc),
+        Some("c13_sync") => check_c13_sync(&case, hint(), call["depth"].as_u64().unwrap_or(2) as usize, call["with_cancel"].as_bool().unwrap_or(true), o, &mut acc),
+        Some("c13_async") => check_c13_async(&case, &plan(), o, &mut acc),
+        Some("c07_async") => check_c07_async(&case, &plan(), o, &mut acc),
+        Some("c08_async") => check_c08_async(&case, &plan(), o, &mut acc),
+        other => {
+            eprintln!("MACHINERY ERROR: replay file names no known check ({other:?})");
+            std::process::exit(2);
+        }
+    }
+    let mut sigs: Vec<String> = acc.violations.iter().map(|v| v.signature.clone()).collect();
+    sigs.sort();
+    sigs.dedup();
+    sigs
 }
 
 fn log_hash(log: &[Ev]) -> u64 {
@@ -124,9 +165,13 @@ pub fn explore_adaptive(
 // ---------------------------------------------------------------------------
 
 pub fn check_c10_c11(prop: &str, case: &Case, plan: &AsyncPlan, order: (usize, u64, u32), acc: &mut Acc) {
+    set_call(json!({"fn": "c10_c11", "prop": prop, "plan": plan}));
+    // the same oracle serves C20 (cache use from inside sort_candidates during a solve, under every completion order)
+    let label = if prop == "C20" { "C20" } else { "C10" };
     let sem = Sem::new(&case.u, &case.p);
     let mut sync_cfg = RunCfg::default();
     sync_cfg.hint_override = plan.hint.clone();
+    sync_cfg.sort_cb = plan.sort_cb;
     let reference = run_case(&case.u, &case.p, &sync_cfg);
     if matches!(reference.outcome, Outcome::Panic(_)) {
         acc.count("skipped_sync_run_panics");
@@ -141,29 +186,29 @@ pub fn check_c10_c11(prop: &str, case: &Case, plan: &AsyncPlan, order: (usize, u
         runs_here += 1;
         distinct_logs.insert(log_hash(&res.log));
         let detail = || json!({"schedule": res.trace.iter().map(|t| t.0).collect::<Vec<_>>(), "plan": format!("{plan:?}"), "outcome": res.outcome.short(), "log": format!("{:?}", res.log)});
-        if prop == "C10" {
+        if prop != "C11" {
             match &res.outcome {
-                Outcome::Deadlock => acc.violation(viol("C10", "deadlock", "solve waits for something that can never complete".into(), case, detail(), order)),
-                Outcome::Horizon => acc.violation(viol("C10", "livelock", "poll horizon exceeded".into(), case, detail(), order)),
-                Outcome::Panic(p) => acc.violation(viol("C10", &format!("panic:{}:{}", p.site, p.msg), format!("async solve panicked at {}: {}", p.site, p.msg), case, detail(), order)),
-                Outcome::Cancelled(_) => acc.violation(viol("C10", "spurious-cancel", "Cancelled without request".into(), case, detail(), order)),
+                Outcome::Deadlock => acc.violation(viol(label, "deadlock", "solve waits for something that can never complete".into(), case, detail(), order)),
+                Outcome::Horizon => acc.violation(viol(label, "livelock", "poll horizon exceeded".into(), case, detail(), order)),
+                Outcome::Panic(p) => acc.violation(viol(label, &format!("panic:{}:{}", p.site, p.msg), format!("async solve panicked at {}: {}", p.site, p.msg), case, detail(), order)),
+                Outcome::Cancelled(_) => acc.violation(viol(label, "spurious-cancel", "Cancelled without request".into(), case, detail(), order)),
                 Outcome::Ok(sol) => {
                     if !reference.outcome.is_ok() {
-                        acc.violation(viol("C10", "verdict-differs", format!("sync run says {}, this schedule says {}", reference.outcome.short(), res.outcome.short()), case, detail(), order));
+                        acc.violation(viol(label, "verdict-differs", format!("sync run says {}, this schedule says {}", reference.outcome.short(), res.outcome.short()), case, detail(), order));
                     }
                     let sel = sem.sel_of(sol);
                     if let Err(rule) = sem.check_valid(&sel, &case.p.soft) {
-                        acc.violation(viol("C10", &format!("invalid:{}", rule.kind()), format!("solution under this schedule violates {rule:?}"), case, detail(), order));
+                        acc.violation(viol(label, &format!("invalid:{}", rule.kind()), format!("solution under this schedule violates {rule:?}"), case, detail(), order));
                     }
                 }
                 Outcome::Unsat => {
                     if reference.outcome.is_ok() {
-                        acc.violation(viol("C10", "verdict-differs", format!("sync run says {}, this schedule says Unsolvable", reference.outcome.short()), case, detail(), order));
+                        acc.violation(viol(label, "verdict-differs", format!("sync run says {}, this schedule says Unsolvable", reference.outcome.short()), case, detail(), order));
                     }
                 }
             }
             if let Some(d) = dup_requests(&res.log) {
-                acc.violation(viol("C10", "duplicate-request", d, case, detail(), order));
+                acc.violation(viol(label, "duplicate-request", d, case, detail(), order));
             }
         } else {
             check_c11_log(case, &sem, &res, plan, order, acc);
@@ -267,6 +312,7 @@ fn classify_poll(log: &[Ev], k: u32) -> &'static str {
 }
 
 pub fn check_c12_sync(case: &Case, hint: Option<Hint>, order: (usize, u64, u32), acc: &mut Acc) {
+    set_call(json!({"fn": "c12_sync", "hint": hint}));
     let mut cfg = RunCfg::default();
     cfg.log = true;
     cfg.hint_override = hint;
@@ -349,6 +395,7 @@ fn check_cancel_result(case: &Case, res: &RunResult, k: u32, sticky: bool, detai
 }
 
 pub fn check_c12_async(case: &Case, plan: &AsyncPlan, order: (usize, u64, u32), acc: &mut Acc) {
+    set_call(json!({"fn": "c12_async", "plan": plan}));
     let base = run_case(&case.u, &case.p, &async_cfg(plan, &[]));
     acc.evaluations += 1;
     if !matches!(base.outcome, Outcome::Ok(_) | Outcome::Unsat) {
@@ -490,6 +537,7 @@ fn refetch(seen_c: &mut HashSet<Id>, seen_d: &mut HashSet<Id>, log: &[Ev]) -> Op
 /// All sequences of length <= depth over the problem alphabet on one sync solver,
 /// optionally with one call cancelled at poll k (all k).
 pub fn check_c13_sync(case: &Case, hint: Option<Hint>, depth: usize, with_cancel: bool, order: (usize, u64, u32), acc: &mut Acc) {
+    set_call(json!({"fn": "c13_sync", "hint": hint, "depth": depth, "with_cancel": with_cancel}));
     let alphabet = problem_alphabet(case);
     let fresh: Vec<Outcome> = alphabet.iter().map(|p| fresh_verdict(&case.u, p, &hint)).collect();
     let polls: Vec<u32> = alphabet
@@ -616,6 +664,7 @@ fn run_history_sync(
 
 /// Async: [P1 cancelled at poll k under schedule sigma, P2 FIFO] for all (k, sigma).
 pub fn check_c13_async(case: &Case, plan: &AsyncPlan, order: (usize, u64, u32), acc: &mut Acc) {
+    set_call(json!({"fn": "c13_async", "plan": plan}));
     let alphabet = problem_alphabet(case);
     let base = run_case(&case.u, &case.p, &async_cfg(plan, &[]));
     if !matches!(base.outcome, Outcome::Ok(_) | Outcome::Unsat) {
@@ -694,6 +743,7 @@ pub fn check_c13_async(case: &Case, plan: &AsyncPlan, order: (usize, u64, u32), 
 // ---------------------------------------------------------------------------
 
 pub fn check_c07_async(case: &Case, plan: &AsyncPlan, order: (usize, u64, u32), acc: &mut Acc) {
+    set_call(json!({"fn": "c07_async", "plan": plan}));
     if !case.p.soft.is_empty() {
         return;
     }
@@ -741,6 +791,7 @@ pub fn check_c07_async(case: &Case, plan: &AsyncPlan, order: (usize, u64, u32), 
 // ---------------------------------------------------------------------------
 
 pub fn check_c08_async(case: &Case, plan: &AsyncPlan, order: (usize, u64, u32), acc: &mut Acc) {
+    set_call(json!({"fn": "c08_async", "plan": plan}));
     if !case.p.soft.is_empty() || !case.p.reqs.iter().all(|r| matches!(r, Req::Single(_))) {
         return;
     }
